@@ -116,6 +116,11 @@ def port_to_line_data(
            [1, 1, 1, 1, 1, 1, 1, 0]], dtype=uint8)
     """
     port_size = port_data.dtype.itemsize * 8
+    # The byte order handling below assumes native byte order, and ndarray.view requires contiguous
+    # data, so normalize non-native (e.g. ">u2") and strided input first.
+    if not port_data.dtype.isnative:
+        port_data = port_data.astype(port_data.dtype.newbyteorder("="))
+    port_data = np.ascontiguousarray(port_data)
     # Convert to big-endian byte order to ensure MSB comes first when bitorder='big'
     # For multi-byte types on little-endian systems, we need to byteswap
     if bitorder != sys.byteorder and port_data.dtype.itemsize > 1:
@@ -156,6 +161,12 @@ def _mask_to_column_indices(
     """
     if mask < 0:
         raise ValueError("The mask must be a non-negative integer.\n\n" f"Mask: {mask}")
+    if mask >> port_size:
+        raise ValueError(
+            "The mask must not have bits set beyond the port size.\n\n"
+            f"Mask: {mask}\n"
+            f"Port size: {port_size}"
+        )
     column_indices = []
     bit_position = 0
     while mask != 0:
